@@ -8,6 +8,7 @@
 -/
 import WB.Lemmas.C09Avg
 import WB.Lemmas.C09Star
+import WB.Lemmas.C09Named
 
 namespace WB.C09
 
@@ -258,6 +259,173 @@ theorem star_spec (L : List (PSym Rat)) (B : Mat Rat) (k : Vec Rat) :
     unfold star
     rw [himg]
     exact starFilter_first [] pre x post (by simpa using hpre)
+
+/-! ## T7 — named operations denote the documented matrices -/
+
+section NamedOps
+variable {F : Type} [Field F] [LinearOrder F] [IsStrictOrderedRing F]
+
+/-- T7a.  `Rotation(n, axis)` (n ∈ {1,2,3,4,6}; axis ±x, ±y, ±z or a body diagonal; `s3 = √3`): a proper operation
+    without inversion or time reversal whose matrix is orthogonal, has determinant 1 and order `n` (`Rⁿ = 1`). -/
+theorem rotation_is_documented (s3 : F) (h3 : s3 * s3 = 3) (n : Nat) (ax : List Int) (g : PSym F)
+    (h : rotationOp s3 n ax = some g) :
+    g.inv = false ∧ g.tr = false ∧ g.Proper ∧ g.full = g.R ∧
+      matMul (matT g.R) g.R = matId ∧ det3 g.R = 1 ∧ matPow g.R n = matId :=
+  rotationOp_spec s3 h3 n ax g h
+
+/-- T7b.  `Mirror(axis)`: the full matrix is minus the two-fold rotation about the axis, has determinant -1 and is
+    an involution. -/
+theorem mirror_is_documented (s3 : F) (h3 : s3 * s3 = 3) (ax : List Int) (g : PSym F) (h : mirrorOp s3 ax = some g) :
+    ∃ c2 : PSym F, rotationOp s3 2 ax = some c2 ∧ g.full = matScale c2.R (-1) ∧ g.tr = false ∧
+      det3 g.full = -1 ∧ matMul g.full g.full = matId :=
+  mirrorOp_spec s3 h3 ax g h
+
+/-- the matrices the module docstring promises for the names of `dict_sym` -/
+def docFull (s3 : F) : String → Option (Mat F × Bool)
+  | "Identity" => some (matId, false)
+  | "Inversion" => some (fun i j => if i = j then -1 else 0, false)
+  | "TimeReversal" => some (matId, true)
+  | "Mx" => some (fun i j => if i = j then (if i = 0 then -1 else 1) else 0, false)
+  | "My" => some (fun i j => if i = j then (if i = 1 then -1 else 1) else 0, false)
+  | "Mz" => some (fun i j => if i = j then (if i = 2 then -1 else 1) else 0, false)
+  | "C2x" => some (fun i j => if i = j then (if i = 0 then 1 else -1) else 0, false)
+  | "C2y" => some (fun i j => if i = j then (if i = 1 then 1 else -1) else 0, false)
+  | "C2z" => some (fun i j => if i = j then (if i = 2 then 1 else -1) else 0, false)
+  | "C4x" => some (fun i j => [[1, 0, 0], [0, 0, -1], [0, 1, 0]].getD i.val [] |>.getD j.val 0, false)
+  | "C4y" => some (fun i j => [[0, 0, 1], [0, 1, 0], [-1, 0, 0]].getD i.val [] |>.getD j.val 0, false)
+  | "C4z" => some (fun i j => [[0, -1, 0], [1, 0, 0], [0, 0, 1]].getD i.val [] |>.getD j.val 0, false)
+  | "C3z" => some (fun i j => [[-(1 / 2), -(s3 / 2), 0], [s3 / 2, -(1 / 2), 0], [0, 0, 1]].getD i.val [] |>.getD j.val 0,
+      false)
+  | "C6z" => some (fun i j => [[1 / 2, -(s3 / 2), 0], [s3 / 2, 1 / 2, 0], [0, 0, 1]].getD i.val [] |>.getD j.val 0, false)
+  | _ => none
+
+/-- T7c.  Every name of `dict_sym` denotes the documented full matrix and TR flag. -/
+theorem named_ops_are_documented (s3 : F) (name : String)
+    (hname : name ∈ ["Identity", "Inversion", "TimeReversal", "Mx", "My", "Mz", "C2x", "C2y", "C2z", "C3z", "C4x",
+      "C4y", "C4z", "C6z"]) :
+    (namedOp s3 name).map (fun g => (g.full, g.tr)) = docFull s3 name := by
+  have h2 : ((1 : F) + 1) = 2 := by norm_num
+  simp only [List.mem_cons, List.mem_nil_iff, or_false] at hname
+  rcases hname with rfl | rfl | rfl | rfl | rfl | rfl | rfl | rfl | rfl | rfl | rfl | rfl | rfl | rfl
+  · show (some (PSym.identity : PSym F)).map _ = _
+    simp [docFull, PSym.identity_full, (PSym.identity_R (F := F)).2.2]
+  · show (some (PSym.mk' (matScale matId (-1)) false : PSym F)).map _ = _
+    simp only [docFull, Option.map_some, PSym.full_mk', PSym.mk'_tr, Option.some.injEq, Prod.mk.injEq, and_true]
+    funext i j; fin_cases i <;> fin_cases j <;> simp [matScale, matId]
+  · show (some (PSym.mk' matId true : PSym F)).map _ = _
+    simp [docFull, PSym.full_mk', PSym.mk'_tr]
+  · show (mirrorOp s3 [1, 0, 0]).map _ = _
+    rw [mir_full s3 _ _ (axisUnit_x s3) (c2_det_nonneg 0)]
+    simp only [docFull, Option.some.injEq, Prod.mk.injEq, and_true]
+    funext i j; fin_cases i <;> fin_cases j <;> simp [rodrigues, crossMat, unitV, matScale] <;> norm_num
+  · show (mirrorOp s3 [0, 1, 0]).map _ = _
+    rw [mir_full s3 _ _ (axisUnit_y s3) (c2_det_nonneg 1)]
+    simp only [docFull, Option.some.injEq, Prod.mk.injEq, and_true]
+    funext i j; fin_cases i <;> fin_cases j <;> simp [rodrigues, crossMat, unitV, matScale] <;> norm_num
+  · show (mirrorOp s3 [0, 0, 1]).map _ = _
+    rw [mir_full s3 _ _ (axisUnit_z s3) (c2_det_nonneg 2)]
+    simp only [docFull, Option.some.injEq, Prod.mk.injEq, and_true]
+    funext i j; fin_cases i <;> fin_cases j <;> simp [rodrigues, crossMat, unitV, matScale] <;> norm_num
+  · show (rotationOp s3 2 [1, 0, 0]).map _ = _
+    rw [rot_full s3 2 _ (-1) 0 _ rfl (axisUnit_x s3)]
+    simp only [docFull, Option.some.injEq, Prod.mk.injEq, and_true]
+    funext i j; fin_cases i <;> fin_cases j <;> simp [rodrigues, crossMat, unitV] <;> norm_num
+  · show (rotationOp s3 2 [0, 1, 0]).map _ = _
+    rw [rot_full s3 2 _ (-1) 0 _ rfl (axisUnit_y s3)]
+    simp only [docFull, Option.some.injEq, Prod.mk.injEq, and_true]
+    funext i j; fin_cases i <;> fin_cases j <;> simp [rodrigues, crossMat, unitV] <;> norm_num
+  · show (rotationOp s3 2 [0, 0, 1]).map _ = _
+    rw [rot_full s3 2 _ (-1) 0 _ rfl (axisUnit_z s3)]
+    simp only [docFull, Option.some.injEq, Prod.mk.injEq, and_true]
+    funext i j; fin_cases i <;> fin_cases j <;> simp [rodrigues, crossMat, unitV] <;> norm_num
+  · show (rotationOp s3 3 [0, 0, 1]).map _ = _
+    rw [rot_full s3 3 _ (-(1 / (1 + 1))) (s3 / (1 + 1)) _ rfl (axisUnit_z s3)]
+    simp only [docFull, Option.some.injEq, Prod.mk.injEq, and_true]
+    funext i j; fin_cases i <;> fin_cases j <;> simp [rodrigues, crossMat, unitV, h2] <;> norm_num
+  · show (rotationOp s3 4 [1, 0, 0]).map _ = _
+    rw [rot_full s3 4 _ 0 1 _ rfl (axisUnit_x s3)]
+    simp only [docFull, Option.some.injEq, Prod.mk.injEq, and_true]
+    funext i j; fin_cases i <;> fin_cases j <;> simp [rodrigues, crossMat, unitV]
+  · show (rotationOp s3 4 [0, 1, 0]).map _ = _
+    rw [rot_full s3 4 _ 0 1 _ rfl (axisUnit_y s3)]
+    simp only [docFull, Option.some.injEq, Prod.mk.injEq, and_true]
+    funext i j; fin_cases i <;> fin_cases j <;> simp [rodrigues, crossMat, unitV]
+  · show (rotationOp s3 4 [0, 0, 1]).map _ = _
+    rw [rot_full s3 4 _ 0 1 _ rfl (axisUnit_z s3)]
+    simp only [docFull, Option.some.injEq, Prod.mk.injEq, and_true]
+    funext i j; fin_cases i <;> fin_cases j <;> simp [rodrigues, crossMat, unitV]
+  · show (rotationOp s3 6 [0, 0, 1]).map _ = _
+    rw [rot_full s3 6 _ (1 / (1 + 1)) (s3 / (1 + 1)) _ rfl (axisUnit_z s3)]
+    simp only [docFull, Option.some.injEq, Prod.mk.injEq, and_true]
+    funext i j; fin_cases i <;> fin_cases j <;> simp [rodrigues, crossMat, unitV, h2] <;> norm_num
+
+/-- T7d.  `from_string_prod("A*B*…")` is the product, from left to right, of the named operations: its full matrix
+    is the product of the full matrices and its TR flag the sum of the TR flags. -/
+theorem from_string_prod_is_product (s3 : F) (s : String) (g : PSym F) (h : fromStringProd s3 s = some g) :
+    ∃ ops : List (PSym F), (s.splitOn "*").mapM (namedOp s3) = some ops ∧ g = productOps ops ∧
+      g.full = ops.foldr (fun op M => matMul op.full M) matId ∧
+      g.tr = ops.foldr (fun op t => op.tr != t) false := by
+  unfold fromStringProd at h
+  cases hm : (s.splitOn "*").mapM (namedOp s3) with
+  | none => rw [hm] at h; simp at h
+  | some ops =>
+    rw [hm] at h
+    simp only [Option.map_some, Option.some.injEq] at h
+    exact ⟨ops, rfl, h.symm, h ▸ (productOps_full ops).1, h ▸ (productOps_full ops).2⟩
+
+end NamedOps
+
+/-! ## T8 — `Result.transform` delegates to `transform_tensor` with the result's own rank and transforms -/
+
+section ResultDelegation
+variable {F K : Type} [Field F] [LinearOrder F] [IsStrictOrderedRing F] [Field K] {r : Nat}
+  (ι : F →+* K) (conj : K →+* K)
+
+/-- T8a.  `EnergyResult.transform` / `K__Result.transform`: the data is `transform_tensor` of the data with the
+    result's own declared transforms (and rank), which are handed on unchanged; `ResultDict.transform` does this for
+    every entry. -/
+theorem result_transform_delegates (g : PSym F) (res : ResultM r K) (d : List (String × ResultM r K)) :
+    (res.transform ι conj g).data = transformTensor ι conj g res.tTR res.tInv res.data ∧
+    (res.transform ι conj g).tTR = res.tTR ∧ (res.transform ι conj g).tInv = res.tInv ∧
+    resultDictTransform ι conj g d = d.map (fun kv => (kv.1, kv.2.transform ι conj g)) :=
+  ⟨rfl, rfl, rfl, rfl⟩
+
+/-- T8b.  Consequently `PointGroup.symmetrize(result)` is `symmetrize_tensor` with the result's own transforms, and
+    inherits T4: it is idempotent and its value is invariant under every element of the group. -/
+theorem symmetrize_result_is_projection (hreal : ∀ a : F, conj (ι a) = ι a) (hinv : ∀ a, conj (conj a) = a)
+    (res : ResultM r K) (hside : sideCond res.tTR res.tInv = true)
+    (L : List (PSym F)) (hne : (L.length : K) ≠ 0) (hnd : L.Nodup)
+    (hcl : ∀ a ∈ L, ∀ b ∈ L, a.mul b ∈ L) (hp : ∀ g ∈ L, g.Proper) :
+    (symmetrizeResult ι conj L res).data = symmetrizeTensor ι conj L res.tTR res.tInv res.data ∧
+    symmetrizeResult ι conj L (symmetrizeResult ι conj L res) = symmetrizeResult ι conj L res ∧
+    (∀ h ∈ L, (symmetrizeResult ι conj L res).transform ι conj h = symmetrizeResult ι conj L res) := by
+  have e : ∀ x : ResultM r K, (symmetrizeResult ι conj L x).data = symmetrizeTensor ι conj L x.tTR x.tInv x.data :=
+    fun _ => rfl
+  obtain ⟨h1, h2, _⟩ := symmetrize_projection ι conj hreal hinv res.tTR res.tInv hside L hne hnd hcl hp
+  refine ⟨rfl, ?_, ?_⟩
+  · have : (symmetrizeResult ι conj L (symmetrizeResult ι conj L res)).data = (symmetrizeResult ι conj L res).data := by
+      rw [e, e]; exact h2 res.data
+    cases hx : symmetrizeResult ι conj L (symmetrizeResult ι conj L res)
+    cases hy : symmetrizeResult ι conj L res
+    rw [hx, hy] at this
+    simp only at this
+    have t1 : (symmetrizeResult ι conj L (symmetrizeResult ι conj L res)).tTR = res.tTR := rfl
+    have t2 : (symmetrizeResult ι conj L (symmetrizeResult ι conj L res)).tInv = res.tInv := rfl
+    have t3 : (symmetrizeResult ι conj L res).tTR = res.tTR := rfl
+    have t4 : (symmetrizeResult ι conj L res).tInv = res.tInv := rfl
+    rw [hx] at t1 t2; rw [hy] at t3 t4
+    simp only at t1 t2 t3 t4
+    rw [this, t1, t2, t3, t4]
+  · intro h hh
+    have hd : ((symmetrizeResult ι conj L res).transform ι conj h).data = (symmetrizeResult ι conj L res).data := by
+      show transformTensor ι conj h res.tTR res.tInv (symmetrizeResult ι conj L res).data = _
+      rw [e]; exact h1 h hh res.data
+    cases hy : symmetrizeResult ι conj L res
+    rw [hy] at hd
+    simp only [ResultM.transform] at hd ⊢
+    rw [hd]
+
+end ResultDelegation
 
 /-! ## examples: the hypotheses are met by concrete, non-trivial instances -/
 
